@@ -1,0 +1,5 @@
+//go:build !verif
+
+package object
+
+func verifCrashPoint(string) {}
